@@ -46,6 +46,10 @@ FamB == UNION {
    { <<S0, << <<1, Gate("after_wake")>>, <<1, b1>>, <<2, b2>>, <<3, PushA>>, <<3, PushA>>, <<1, Release>>, <<3, LLenA>> >> >>,
      <<S0, << <<1, b1>>, <<2, b2>>, <<3, C("MULTI", <<>>)>>, <<3, PushA>>, <<3, PushA>>, <<3, C("EXEC", <<>>)>>, <<3, LLenA>> >> >> }
    : b1 \in {BLPop0, BLMPop}, b2 \in {BLPop0, BRPop2, BLMove} }
+   \* the first waiter is woken, its element is taken by somebody else before it looks, it goes on waiting: it is
+   \* still the longest waiter, and the next pushes serve it first, then the second waiter
+   \cup { <<S0, << <<1, Gate("after_wake")>>, <<1, b1>>, <<2, BLPop0>>, <<3, PushA>>, <<3, C("LPOP", <<ka>>)>>, <<1, Release>>,
+                   <<3, PushA>>, <<3, PushA>>, <<3, LLenA>> >> >> : b1 \in {BLPop0, BRPop2} }
 
 \* C (C12): block / end / block again on one connection, in every combination of how the block ends
 Ends(n) == { << <<3, Unblock(n, "")>> >>, << <<3, Unblock(n, "ERROR")>> >>, << <<3, Unblock(n, "TIMEOUT")>> >>, << <<3, PushA>> >> }
